@@ -10,8 +10,11 @@ A store turns the walked outputs into a stream of entries.  An output can fail i
 `fs.Walk` stops at the first error inside one output.
 
 What the tar reader (`readTar`) makes of a stream: it restores entry after entry; an entry with a short body is an
-error (a miss); when the input simply ends at an entry boundary — with or without the end marker — that is the end
-of the archive (a hit).  gzip / the tar byte format are not modelled.
+error (a miss); tar's end marker is the end of the archive (a hit).  When the input ends at an entry boundary WITHOUT
+the marker, it depends on how the input ends: a real end-of-input (the HTTP body, through gzip) is also taken for the
+end of the archive; the command cache never sees a real end-of-input — nobody closes the write end of its pipe, and
+`Retrieve` closes the READ end once the command has exited — so there the next read fails (`ErrClosedPipe`): a miss.
+gzip / the tar byte format are not modelled.
 -/
 namespace PlzVerif.RemoteCache
 
@@ -122,31 +125,44 @@ inductive CmdKind
   | atomic     -- `cat > tmp && mv tmp $CACHE_KEY`: committed only if the shell runs to the end
   deriving DecidableEq, Repr
 
-/-- What can be left under the key.  After a read fault the writer calls `cancel()` — the command is killed
-    asynchronously — and THEN closes its pipe, so the command may see end-of-input before the kill lands.
-    * `naive`: whatever got through stays: `arrived` tokens of the stream, the last possibly cut (`cutLast`);
-    * `atomic`: nothing if the kill won (`killWon`); otherwise the command ran to its end on a cleanly closed input and
-      committed everything the writer had produced — an archive that stops at the failed output.
-    (Observed on the pinned tree: the kill wins on an idle machine; under load it loses now and then.) -/
-def cmdStored (k : CmdKind) (outs : List (List Src)) (arrived : Nat) (cutLast : Bool) (killWon : Bool) :
-    Option (List Tok) :=
+/-- What sits under a command cache's key: the entries and whether tar's end marker follows them. -/
+structure Stored where
+  toks : List Tok
+  marker : Bool
+  deriving DecidableEq, Repr
+
+/-- What can be left under the key.
+    The store goes wrong in two ways: a read fault — the writer calls `cancel()` (the command is killed asynchronously)
+    and returns, and its deferred `tw.Close()` / `w.Close()` then FINISH the archive: end marker (unless the writer is
+    stuck on a short body) and end-of-input — or the command fails by itself (`cmdFailed`: it stops reading, exits
+    non-zero).
+    * `naive`: whatever got through stays: `arrived` tokens of the stream, the last possibly cut (`cutLast`), and the
+      end marker if it got through as well (`markerArrived`; only possible behind the complete stream);
+    * `atomic`: a command that failed by itself commits nothing; after a read fault nothing if the kill won
+      (`killWon`), otherwise the command ran to its end on a cleanly finished input and committed everything the
+      writer had produced — an archive that stops at the failed output.
+    (Observed on the pinned tree: for a commit-on-success command the kill wins on an idle machine and loses now and
+    then under load; `cat > $KEY` receives the finished archive every time once the data exceeds the pipe buffer.) -/
+def cmdStored (k : CmdKind) (outs : List (List Src)) (cmdFailed : Bool) (arrived : Nat) (cutLast markerArrived : Bool)
+    (killWon : Bool) : Option Stored :=
   let r := cmdWrite ⟨[], false⟩ outs
-  if r.2 then
+  let finished : Stored := ⟨r.1.toks, !r.1.broken⟩
+  if r.2 || cmdFailed then
     match k with
-    | .atomic => if killWon then none else some r.1.toks
+    | .atomic => if cmdFailed || killWon then none else some finished
     | .naive =>
       let ts := r.1.toks.take arrived
-      some (if cutLast then
-        match ts.reverse with
-        | [] => []
-        | t :: rest => (⟨t.ent, false⟩ :: rest).reverse
-      else ts)
-  else some r.1.toks
+      if cutLast then
+        some ⟨(match ts.reverse with
+          | [] => []
+          | t :: rest => (⟨t.ent, false⟩ :: rest).reverse), false⟩
+      else some ⟨ts, markerArrived && decide (r.1.toks.length ≤ arrived) && !r.1.broken⟩
+  else some finished
 
-/-- `Retrieve`: `tarOk && commandExitedZero`. -/
-def cmdRetrieve (stored : Option (List Tok)) (commandOK : Bool) : Res :=
+/-- `Retrieve`: `tarOk && commandExitedZero`, where the tar reader needs the end marker (see the header). -/
+def cmdRetrieve (stored : Option Stored) (commandOK : Bool) : Res :=
   match stored with
   | none => .miss                       -- `cat` of a missing file fails
-  | some ts => if commandOK then readToks ts else .miss
+  | some st => if commandOK && st.marker then readToks st.toks else .miss
 
 end PlzVerif.RemoteCache
